@@ -331,6 +331,13 @@ def variant_args(makers, rng, variant):
             a = np.round(a * 8).astype(np.int64)
         elif m.kind == 'arr' and variant == 'list':
             a = a.tolist()
+        elif variant in ('tiny', 'huge') and m.kind in ('arr', 'sig'):
+            # records around 1e-120 / 1e+120: a guard against under/overflow must not normalise the caller's data in place
+            sc = 2.0 ** (-400 if variant == 'tiny' else 400)
+            if m.kind == 'arr':
+                a = a * sc
+            else:
+                a = type(a)(np.asarray(a.values) * sc, a.dt)
         args.append(a)
     return args
 
@@ -367,10 +374,11 @@ def purity(ctx):
             continue
         for label, call, makers in P.CALLS[name]:
             has_arr = any(m.kind == 'arr' for m in makers)
-            for variant in (('float64', 'int64', 'list') if has_arr else ('float64',)):
+            has_sig = any(m.kind == 'sig' for m in makers)
+            for variant in (('float64', 'int64', 'list', 'tiny', 'huge') if has_arr else (('float64', 'tiny', 'huge') if has_sig else ('float64',))):
                 n_ok, last = 0, None
-                for rep in range(reps + 4):
-                    if rep >= reps and n_ok > 0:
+                for rep in range((reps if variant not in ('tiny', 'huge') else 2) + 4):
+                    if rep >= (reps if variant not in ('tiny', 'huge') else 2) and n_ok > 0:
                         break
                     args = variant_args(makers, rng, variant)
                     before = [P.snap(a) for a in args]
